@@ -135,8 +135,8 @@ CHECKS = {
         # open findings (see replays/C13): transactions/batches share one sequence number and reach the replica entry by entry
         # (primary_tx); a message applied only in part leaves the replica's cursor behind (noncontig_msg, apply_error)
         "env": {"VERIF_OFF": "primary_tx,noncontig_msg,apply_error"},
-        "quick": {"shards": 16, "rounds": 1, "checks": 1500, "timeout": 900},
-        "thorough": {"shards": 16, "rounds": 8, "checks": 2500, "timeout": 3000},
+        "quick": {"shards": 16, "rounds": 1, "checks": 1200, "timeout": 900},
+        "thorough": {"shards": 16, "rounds": 6, "checks": 2000, "timeout": 3000},
         "assumptions": [
             "fast path: stream messages are handed to a real replication.Replica through the export shims VerifProcessBatch / VerifProcessBatchAck (no network, no state-machine ticks); unary RPCs go to an in-process client that records ACK/NACK",
             "messages are what the real primary produces: pushes recorded from Primary.StreamWAL's session while the history is written, polls/resends/initial entries through Primary.VerifEntriesFrom; the schedule may cut a message short, drop one inner entry, re-encode payloads with zstd/snappy, duplicate, delay, reorder and drop messages",
